@@ -263,12 +263,15 @@ func c14Data() []c14Binding {
 		out = append(out, c14Binding{name: fmt.Sprintf("d%d", n), def: def, val: &mm})
 		add(m)
 	}
-	// every 5- and 6-subset of those keys, inserted in the listed and in the reverse order
-	for mask := 0; mask < 1<<len(ext); mask++ {
+	// every 5- and 6-subset of a pool of far-apart and small keys, inserted in the listed and in the reverse order
+	// (where a key lands depends on the probes of the binary search: many key sets, not a few)
+	pool := []ref.Value{ref.Int(math.MaxInt64), ref.Int(math.MinInt64 + 1), ref.Int(1 << 62), ref.Int(-(1 << 62)), ref.Int(9000000000000000000), ref.Int(-9000000000000000000),
+		ref.Int(-3), ref.Int(-1), ref.Int(1), ref.Int(7)}
+	for mask := 0; mask < 1<<len(pool); mask++ {
 		var sub []ref.Value
-		for i := range ext {
+		for i := range pool {
 			if mask&(1<<i) != 0 {
-				sub = append(sub, ext[i])
+				sub = append(sub, pool[i])
 			}
 		}
 		if len(sub) != 5 && len(sub) != 6 {
